@@ -90,7 +90,10 @@ def graphml_case(doc, tag, wellformed=None):
         else:
             early = 'from_graphml raised %s on a well-formed document' % impl
     sig = {'entry': 'from_graphml', 'namespace': doc['ns'], 'edgedefault': doc.get('edgedefault'),
-           'nodeids': doc.get('nodeids'), 'weight_key': any(k.get('name') == doc.get('weight_key', 'weight') for k in doc['keys']),
+           'nodeids': doc.get('nodeids'), 'weight_key_name': doc.get('weight_key', 'weight'),
+           'dtd_defaults': any(k.get('for') is None or k.get('name') is None or k.get('type') is None or k.get('for') == 'all'
+                               for k in doc['keys']),
+           'weight_key': any(k.get('name') == doc.get('weight_key', 'weight') for k in doc['keys']),
            'weight_default': any(k.get('name') == doc.get('weight_key', 'weight') and k.get('defaults') for k in doc['keys']),
            'weight_type': next((k.get('type') for k in reversed(doc['keys'])
                                 if k.get('name') == doc.get('weight_key', 'weight') and k.get('for') != 'node'), None),
@@ -101,7 +104,7 @@ def graphml_case(doc, tag, wellformed=None):
 
 
 def make_doc(rng, n, edges, ns=True, edgedefault='directed', nodeids=None, wtype=None, wdefault=None,
-             other_keys=False, shuffle=False, node_weight_key=False):
+             other_keys=False, shuffle=False, node_weight_key=False, wname='weight', decoy=False, dtd_defaults=False):
     """edges: list of (i, j, directed attr or None, weight text or None)."""
     canonical = nodeids == 'canonical'
     ids = ['n%d' % i for i in range(n)] if canonical or rng.random() < 0.3 else \
@@ -113,10 +116,22 @@ def make_doc(rng, n, edges, ns=True, edgedefault='directed', nodeids=None, wtype
         keys.append({'id': 'c2', 'for': rng.choice(['all', 'graph']), 'name': 'note', 'type': 'string', 'defaults': []})
     if node_weight_key:
         # NetworkX writes a node attribute and an edge attribute of the same name as two keys
-        keys.append({'id': 'dn', 'for': 'node', 'name': 'weight', 'type': 'double', 'defaults': []})
+        keys.append({'id': 'dn', 'for': 'node', 'name': wname, 'type': 'double', 'defaults': []})
+    if dtd_defaults:
+        # valid GraphML relying on the defaults of the DTD: no `for` (= all), no attr.name (named by the id, what
+        # yEd writes for its graphics keys), no attr.type (a string)
+        keys.append({'id': 'g0', 'for': 'node'})
+        keys.append({'id': 'g1', 'name': 'label', 'type': 'string'})
+        keys.append({'id': 'g2', 'for': 'all', 'name': 'tag', 'type': 'int', 'defaults': ['4']})
+    if decoy:
+        # an edge key named `weight` that is not the weight key when another name is asked for (and conversely)
+        keys.append({'id': 'dx', 'for': 'edge', 'name': 'weight' if wname != 'weight' else 'cost', 'type': 'int', 'defaults': []})
     if wtype is not None:
-        keys.append({'id': 'd0', 'for': 'edge', 'name': 'weight', 'type': wtype,
-                     'defaults': [] if wdefault is None else [wdefault]})
+        k = {'id': 'd0', 'for': 'edge', 'name': wname, 'type': wtype,
+             'defaults': [] if wdefault is None else [wdefault]}
+        if dtd_defaults and rng.random() < 0.5:
+            del k['for']
+        keys.append(k)
     if node_weight_key and wtype is not None and rng.random() < 0.5:
         keys.reverse()
     children = []
@@ -127,6 +142,11 @@ def make_doc(rng, n, edges, ns=True, edgedefault='directed', nodeids=None, wtype
             data.append(['c0', rng.choice(['red', 'green'])])
         if node_weight_key and rng.random() < 0.7:
             data.append(['dn', rng.choice(['1.5', '2'])])
+        if dtd_defaults and rng.random() < 0.6:
+            data.append(['g0', rng.choice(['shape', ''])])
+            data.append(['g1', 'a label'])
+            if rng.random() < 0.5:
+                data.append(['g2', '7'])
         if data:
             c['data'] = data
         children.append(c)
@@ -138,6 +158,11 @@ def make_doc(rng, n, edges, ns=True, edgedefault='directed', nodeids=None, wtype
         data = []
         if other_keys and rng.random() < 0.4:
             data.append(['c1', '7.5'])
+        if decoy and rng.random() < 0.6:
+            data.append(['dx', str(rng.randint(5, 9))])
+        if dtd_defaults and rng.random() < 0.5:
+            data.append(['g2', '3'])
+            data.append(['g1', 'e'])
         if w is not None and wtype is not None:
             data.append(['d0', w])
         c['data'] = data
@@ -148,7 +173,7 @@ def make_doc(rng, n, edges, ns=True, edgedefault='directed', nodeids=None, wtype
     if shuffle:
         rng.shuffle(children)
     return {'ns': ns, 'graph': True, 'edgedefault': edgedefault, 'nodeids': nodeids, 'keys': keys,
-            'children': children, 'weight_key': 'weight', 'wellformed': True}
+            'children': children, 'weight_key': wname, 'wellformed': True}
 
 
 def wtext(rng, wtype):
@@ -203,7 +228,9 @@ def gen_cases(ctx, out, earlies, exhaustive=False):
                           None if wtype is None or rng.random() < 0.3 else wtext(rng, wtype)))
         add(make_doc(rng, n, edges, ns=rng.random() < 0.8, edgedefault=rng.choice(['directed', 'undirected']),
                      nodeids=rng.choice([None, None, 'canonical', 'free']), wtype=wtype, wdefault=wd,
-                     other_keys=rng.random() < 0.3, shuffle=rng.random() < 0.3, node_weight_key=rng.random() < 0.15))
+                     other_keys=rng.random() < 0.3, shuffle=rng.random() < 0.3, node_weight_key=rng.random() < 0.15,
+                     wname=rng.choice(['weight', 'weight', 'cost', 'w']), decoy=rng.random() < 0.3,
+                     dtd_defaults=rng.random() < 0.25))
         ctx.count('graphml:sampled')
     # malformed / degenerate documents (run line only)
     base = make_doc(rng, 2, [(0, 1, None, None)])
@@ -241,7 +268,14 @@ def gen_cases(ctx, out, earlies, exhaustive=False):
     d['keys'] = [{'id': 'c1', 'for': 'edge', 'name': 'count', 'type': 'int', 'defaults': []}]
     d['children'][0]['data'] = [['c1', '4']]; bad.append(d)
     d = make_doc(rng, 2, [(0, 1, None, None)])
-    d['keys'] = [{'id': 'c1', 'name': 'count', 'type': 'int', 'defaults': []}]; bad.append(d)
+    d['keys'] = [{'name': 'count', 'type': 'int', 'for': 'edge', 'defaults': []}]; bad.append(d)        # a key without id
+    d = make_doc(rng, 2, [(0, 1, None, None)], wtype='string'); bad.append(d)
+    d = make_doc(rng, 2, [], wtype='string'); bad.append(d)
+    d = make_doc(rng, 2, [(0, 1, None, 'x')], wtype='string'); bad.append(d)
+    for wt_ in ('double', 'int', 'long', 'boolean'):
+        d = make_doc(rng, 2, [(0, 1, None, '')], wtype=wt_); bad.append(d)                              # <data key="d0"/>
+    d = make_doc(rng, 2, [(0, 1, None, '99999999999999999999')], wtype='int'); bad.append(d)
+    d = make_doc(rng, 2, [(0, 1, None, '-9223372036854775809')], wtype='long'); bad.append(d)
     for d in bad:
         d = dict(d)
         d['wellformed'] = False
